@@ -1,9 +1,30 @@
 package main
 
 import (
+	"fmt"
+	"os"
 	"sort"
+	"strconv"
 	"strings"
+	"time"
 )
+
+// bndDeadline bounds the wall time of one top-level run of the prover (nested runs on inlined callees share it). A
+// run that exceeds it stops and reports trouble: the check then exits with status 2 instead of running for hours
+// on code whose shape defeats the partitioning heuristics. LZ4_BND_BUDGET (seconds) overrides the default.
+var bndDeadline time.Time
+var bndDepth int
+
+type bndBudgetExceeded struct{}
+
+func bndBudget() time.Duration {
+	if v := os.Getenv("LZ4_BND_BUDGET"); v != "" {
+		if n, err := strconv.Atoi(v); err == nil && n > 0 {
+			return time.Duration(n) * time.Second
+		}
+	}
+	return 300 * time.Second
+}
 
 // Fixpoint driver of the bounds prover, generic over the two front ends.
 // Iteration strategy: recursive (Bourdoncle): every natural loop is stabilised
@@ -74,7 +95,7 @@ type bndResult struct {
 
 const maxDisjuncts = 8
 
-func runBnd(p bndProg, hc *hullCtx, coll *collector, incs func(head int, back []*AbsState, hd *tmplHead) (map[string][2]Q, map[string][2]bool)) *bndResult {
+func runBnd(p bndProg, hc *hullCtx, coll *collector, incs func(head int, back []*AbsState, hd *tmplHead) (map[string][2]Q, map[string][2]bool)) (out *bndResult) {
 	n := p.numBlocks()
 	order := make([]int, 0, n)
 	seen := make([]bool, n)
@@ -137,6 +158,22 @@ func runBnd(p bndProg, hc *hullCtx, coll *collector, incs func(head int, back []
 	}
 	edgeOut := make([][][]*AbsState, n)
 	res := &bndResult{heads: hc.heads, reached: map[int]bool{}, coll: coll}
+	if bndDepth == 0 {
+		bndDeadline = time.Now().Add(bndBudget())
+	}
+	bndDepth++
+	top0 := bndDepth == 1
+	defer func() {
+		bndDepth--
+		if r := recover(); r != nil {
+			if _, isB := r.(bndBudgetExceeded); isB && top0 {
+				res.trouble = fmt.Sprintf("the bounds prover did not reach a fixpoint within its time budget of %s (set LZ4_BND_BUDGET to raise it)", bndBudget())
+				out = res
+				return
+			}
+			panic(r)
+		}
+	}()
 	inStates := func(b int) []*AbsState {
 		var ins []*AbsState
 		if b == p.entryBlock() {
@@ -220,6 +257,9 @@ func runBnd(p bndProg, hc *hullCtx, coll *collector, incs func(head int, back []
 		return merged
 	}
 	exec := func(b int, ins []*AbsState, check bool) {
+		if time.Now().After(bndDeadline) {
+			panic(bndBudgetExceeded{})
+		}
 		res.reached[b] = true
 		if len(ins) > res.maxDisj {
 			res.maxDisj = len(ins)
